@@ -567,7 +567,10 @@ func (p *Peer) onFrame(f *tap.Frame) {
 		if st.Ended || st.Rst {
 			st.AfterEnd++
 		}
-		st.Rst, st.RstCode = true, f.ErrCode
+		if !st.Rst {
+			st.RstCode = f.ErrCode // the first RST_STREAM is the server's answer; later ones react to later frames
+		}
+		st.Rst = true
 		st.Opened = false
 		if st.EndNs == 0 {
 			st.EndNs = f.SimNs
